@@ -167,13 +167,42 @@ def check_earliest(run, rule):
             for c in ir.calls_in(st):
                 if callee_name(c) in ("push_back", "emplace_back") and path(c.get("recv")) == ("this", vec):
                     stores.append((c, g))
+        if len(upd) == 0 and stores:
+            # the update may live in a helper of the class: inline one level (guards of the helper rewritten to the caller's paths)
+            for st, g, loops in ir.guarded_statements(f["body"], env):
+                if st.get("k") in ("IfCond", "LoopHead", "SwitchHead"):
+                    continue
+                for c in ir.calls_in(st):
+                    cal = c.get("callee") or {}
+                    if cal.get("cls") != "CDNS::CdnsBlock" or c.get("k") != "MCall":
+                        continue
+                    hs = [h_ for h_ in facts.fns(cal.get("qn")) if h_["sig"] == cal.get("sig")]
+                    if len(hs) != 1:
+                        continue
+                    h_ = hs[0]
+                    henv = Env(h_["body"])
+                    pmap = {}
+                    for prm, a in zip(h_["params"], c.get("args", [])):
+                        ap = path(a)
+                        pmap["p:%s" % prm["n"]] = env.resolve_ref_path(ap) if ap else None
+                    for st2, g2, loops2 in ir.guarded_statements(h_["body"], henv):
+                        if st2.get("k") in ("IfCond", "LoopHead", "SwitchHead"):
+                            continue
+                        for lp2, rhs2, node2 in consumption.assignment_targets([st2]):
+                            if lp2 == E:
+                                rp2 = path(rhs2)
+                                rhs_path = None
+                                if rp2 and rp2[0] in pmap and pmap[rp2[0]] is not None:
+                                    rhs_path = tuple(pmap[rp2[0]]) + tuple(rp2[1:])
+                                gg = ir.f_and(g, ir.subst_formula(g2, pmap))
+                                upd.append((c, gg, {"k": "PathRef", "p": rhs_path}))
         if len(upd) != 1 or not stores:
             run.ob(rule, tag + ":earliest-update", False if len(upd) == 0 else None, f, f["line"],
                    "no statement lowers m_block_preamble.earliest_time before the record is stored" if len(upd) == 0 else
                    "expected one earliest-time update and a store (found %d/%d)" % (len(upd), len(stores)))
             continue
         node, g, rhs = upd[0]
-        rp = path(rhs)
+        rp = rhs.get("p") if isinstance(rhs, dict) and rhs.get("k") == "PathRef" else path(rhs)
         src_ok = rp is not None and tuple(x for x in rp if x != "$") == tpath
         # guard: present(T) && (both containers empty || T < earliest)
         atoms = conjuncts(g)
